@@ -6,7 +6,7 @@ from .. import spell
 
 LEVEL = 'proof'
 TRUSTED = ['Lean 4 kernel; axioms propext, Classical.choice, Quot.sound only',
-           'the quote! glue of microscpi-macros/src/lib.rs (id <-> handler mapping, emission of the statics) is validated on the 17 generated interfaces of each run (TREE op), not modelled token by token',
+           'the quote! glue of microscpi-macros/src/lib.rs (id <-> handler mapping, emission of the statics) is validated on the generated interfaces (24) of each run (TREE op), not modelled token by token',
            'HashMap in the macro: only its map semantics', 'ASCII declarations (char::is_lowercase / to_uppercase re-stated for ASCII)',
            'correspondence harness + driver (differential testing; covers only generated cases)']
 RULE = ('TREE of every generated interface (real macro expansion vs model); MACRO on seeded random declaration sets (real command.rs/tree.rs '
@@ -26,6 +26,9 @@ def expected_header_oracle(line, case):
     if exp[0] == 'call':
         if log != [exp[1]] or errs != exp[2]:
             return f'expected exactly the call {exp[1]} and errors {exp[2]}'
+    elif exp[0] == 'one-error':
+        if log or len(errs) != 1:
+            return 'expected no handler call and exactly one error'
     else:
         if log or errs != ['-113']:
             return 'expected no handler call and exactly one error -113'
@@ -105,6 +108,19 @@ def header_cases(rng, iface, tier):
             if exp is None:
                 continue   # e.g. all-optional omitted spelling that resolves elsewhere
             out.append(Case(f'RUN {name} std {hx(text)}', expected_header_oracle, {'expect': exp, 'kind': 'RUN-spelling'}))
+            # misplaced level separators on a valid spelling: surplus trailing, doubled or leading-doubled colon
+            hdr = ':'.join(mn)
+            if not hdr.startswith('*'):
+                forms = [hdr + ':', hdr + ':?', '::' + hdr + ('?' if query else ''), ':' + hdr + ':' + ('?' if query else '')]
+                if len(mn) > 1:
+                    j = rng.randrange(1, len(mn))
+                    forms.append(':'.join(mn[:j]) + '::' + ':'.join(mn[j:]) + ('?' if query else ''))
+                for fm in (rng.sample(forms, 2) if tier == 'quick' else forms):
+                    for tail in (b'', b' ' + b','.join(l[0] for l in lits) if lits else b''):
+                        out.append(Case(f'RUN {name} std {hx(fm.encode() + tail + bytes([10]))}', expected_header_oracle,
+                                        {'expect': ('undef',), 'kind': 'RUN-colon'}))
+                out.append(Case(f'RUN {name} std {hx((hdr + "?:").encode() + bytes([10]))}', expected_header_oracle,
+                                {'expect': ('one-error',), 'kind': 'RUN-colon'}))
             # near misses derived from this spelling
             for _ in range(2 if tier == 'quick' else 5):
                 mm = list(mn)
